@@ -177,6 +177,30 @@ theorem checkPat_just {B funs} : ∀ (p : IPat) ty Γ (s : St),
     refine ⟨hΓ, ?_⟩
     simp only [pobls, pself, plink]
     exact JL.cons (Or.inl rfl) (JL.one (Or.inr (mem_push _ _)))
+  · intro k ty Γ s _ hΓ
+    simp only [checkPat]
+    refine ⟨hΓ, ?_⟩
+    simp only [pobls, pself, plink]
+    exact JL.cons (Or.inl rfl) (JL.one (Or.inr (mem_push _ _)))
+  · intro info args ih ty Γ s hB hΓ
+    have wild : ∀ (s0 : St), JL B funs ((s0.fresh.2).push (.eq s0.fresh.1 ty)).cs (pobls (.wild s0.fresh.1) ty) := by
+      intro s0
+      simp only [pobls, pself, plink]
+      exact JL.one (Or.inr (mem_push _ _))
+    rcases info with _ | _ | ⟨cty, arity⟩
+    · simp only [checkPat] at hB ⊢
+      exact ⟨hΓ, wild _⟩
+    · simp only [checkPat] at hB ⊢
+      exact ⟨hΓ, wild _⟩
+    · simp only [checkPat] at hB ⊢
+      by_cases hc : arity = args.length
+      · simp only [hc, if_true, pbinders] at hB ⊢
+        obtain ⟨h1, h2⟩ := ih _ Γ _ hB hΓ
+        refine ⟨h1, ?_⟩
+        simp only [pobls, pself, plink]
+        exact JL.append (h2.mono (le_push _ _)) (JL.one (Or.inr (mem_push _ _)))
+      · simp only [hc, if_false] at hB ⊢
+        exact ⟨hΓ, wild _⟩
   · intro ps ih ty Γ s hB hΓ
     simp only [checkPat, pbinders] at hB ⊢
     obtain ⟨h1, h2⟩ := ih _ Γ (tupleElemTys ps.length ty s).2 hB hΓ
